@@ -433,3 +433,51 @@ def rule_tls_causality(tree: Tree) -> RuleResult:
         r.ob(ok, Finding("CAUS", f"session:Session.get_tls_records:{arm_name}-records",
                          f"released {arm_name} records must be handed, in list order, to handle_tls_record(record, {flag})", m.line(loop)))
     return r
+
+
+# ------------------------------------------------------------------------------------------ full scans
+FULL_SCANS = [
+    # (module, qualname, text of the iterated expression, why every element matters)
+    ("key_derivator", "dev_tls_13_keys", "secret_list", "each of the four TLS 1.3 secrets is picked by its label, in whatever order the key log lists them"),
+    ("quic.quic_key_generation", "dev_quic_keys", "secret_list", "each QUIC secret is picked by its label"),
+    ("session", "Session.extract_server_buf", "packet_ranges", "a record is attributed to *all* packets overlapping it"),
+    ("session", "Session.extract_client_buf", "packet_ranges", "a record is attributed to *all* packets overlapping it"),
+    ("session", "Session.get_tls_records", "self.server_tls_records", "every released record is handled"),
+    ("session", "Session.get_tls_records", "self.client_tls_records", "every released record is handled"),
+    ("session", "Session.get_tls_records", "self.packet_buffer", "every buffered packet is processed"),
+    ("output_builder", "OutputBuilder.build", "record[1].metadata", "every carrying packet contributes its timestamp"),
+    ("quic.quic_session", "QuicSession.decrypt_packet", "frames", "every frame of a packet is handled"),
+    ("quic.quic_session", "QuicSession.handle_quic_packet", "self.packet_buffer_quic", "every extracted QUIC packet is handled"),
+    ("main", "run", "all_decrypted_sessions", "every exported packet is written"),
+    ("main", "run", "sessions", "every TLS session is finalised"),
+    ("main", "run", "quic_sessions", "every QUIC session is finalised"),
+    ("main", "get_port_map", "parser.mapports", "every -m pair is mapped"),
+]
+
+
+def rule_full_scans(tree: Tree) -> RuleResult:
+    r = RuleResult("FS", "loops that must visit every element have no break / return and no element-skipping filter")
+    for mod, qn, it_txt, why in FULL_SCANS:
+        f = tree.func(mod, qn)
+        loops = [n for n in body_walk(f.node) if isinstance(n, ast.For) and src(n.iter, 200) == it_txt]
+        if not loops:
+            # the loop may iterate a view of the container (reported by the rules that own the container); here only an exact loop is required to exist
+            cand = [n for n in body_walk(f.node) if isinstance(n, ast.For) and it_txt in src(n.iter, 200)]
+            r.instances += 1
+            r.ob(False, Finding("FS", f"{mod}:{qn}:scan:{it_txt}", f"{qn}: expected a loop `for … in {it_txt}` ({why}); found {[src(c.iter, 60) for c in cand] or 'none'}", f.module.line(f.node)))
+            continue
+        for lp in loops:
+            r.instances += 1
+            early = []
+            for st in lp.body:
+                for x in ast.walk(st):
+                    if isinstance(x, (ast.Break, ast.Return)):
+                        # a break/return inside a nested loop's own scope still leaves this loop if it is a Return; Break only counts for this loop
+                        if isinstance(x, ast.Return):
+                            early.append("return")
+                        else:
+                            inner = [a for a in ancestors(x) if isinstance(a, (ast.For, ast.While))]
+                            if inner and inner[0] is lp:
+                                early.append("break")
+            r.ob(not early, Finding("FS", f"{mod}:{qn}:scan:{it_txt}", f"{qn}: the loop over `{it_txt}` leaves early ({sorted(set(early))}) — {why}", f.module.line(lp)))
+    return r
